@@ -291,6 +291,15 @@ C16V(r) ==
           r.raised = "" => Leq(Mul(AbsDiff(Mul(r.num, D), target), Pow2(50)), target)>>
     >>)
 
+(***************************** C17 *****************************************)
+\* r.parses = <<[text, got, want]>>: every parse of one history / schedule with the digest (or exception) it
+\* produced and the one the same text and selection produce when parsed alone in a fresh interpreter
+C17V(r) ==
+  FirstFail(<<
+    <<"run-completed", ~r.hung /\ r.errors = <<>>>>,
+    <<"same-result-as-a-fresh-interpreter-parse", \A k \in DOMAIN r.parses : r.parses[k].got = r.parses[k].want>>
+  >>)
+
 (***************************** C08 *****************************************)
 \* r.kind = "B":  r.nd digits of n, r.m / r.e the observed tempo as m * 2^e (m the 53-bit significand)
 \* "the nearest float": |m * 2^e - n/1000| <= half an ulp = 2^e / 2, i.e. |1000 m 2^e - n| <= 500 * 2^e
@@ -341,6 +350,7 @@ VerdictOf(p, r) ==
     [] p = "C04" -> C04V(r)
     [] p = "C05" -> C05V(r)
     [] p = "C08" -> C08V(r)
+    [] p = "C17" -> C17V(r)
     [] p = "C16" -> C16V(r)
     [] p = "C18" -> C18V(r)
     [] p = "C14" -> C14V(r)
